@@ -106,7 +106,14 @@ def special_env():
             hh = Hierarchy.get(a)
             if hh.subclass("K2", "K0") and hh.subclass("K2", "K1") and not hh.subclass("K1", "K0"):
                 h = hh
-        SPECIAL_CLASSES = (h, dict(h.classes))
+        import typing
+
+        ns = {"__module__": "vtgen", "tw": lambda self: 1}
+        # structural twins: two distinct protocol classes that are subclasses of each other, and a class satisfying both
+        extra = {"TP": typing.runtime_checkable(type("TP", (typing.Protocol,), dict(ns))),
+                 "TP2": typing.runtime_checkable(type("TP2", (typing.Protocol,), dict(ns))),
+                 "TW": type("TW", (), dict(ns))}
+        SPECIAL_CLASSES = (h, dict(h.classes, **extra))
     return SPECIAL_CLASSES
 
 
@@ -115,18 +122,23 @@ SPECIAL_POOL = [
     "K0", "K1", "O", ["lit", 0], ["lit", 0, 1], ["lit", 1, 2], ["dep", "int", "p3"], ["dep", "int", "p6"], "int",
     ["dep", "K0", "qa"], ["dep", "K0", "qb"],
 ]
+N_SPECIAL = len(SPECIAL_POOL)
+SPECIAL_POOL += ["TP", "TP2"]  # only ever generated together (a tie that no order may break)
 
 
 def special_values(h):
     class_vals = [(nm, h.instances[nm]) for nm in ("K0", "K1", "K2")]
     tagged = h.classes["K0"].__new__(h.classes["K0"])
-    return class_vals + [("0", 0), ("1", 1), ("2", 2), ("'a'", "a")]
+    return class_vals + [("0", 0), ("1", 1), ("2", 2), ("'a'", "a"), ("TW()", special_env()[1]["TW"]())]
 
 
 def special_programs(sizes):
     for L in sizes:
-        for combo in itertools.combinations(range(len(SPECIAL_POOL)), L):
+        for combo in itertools.combinations(range(N_SPECIAL), L):
             yield combo
+    yield (N_SPECIAL, N_SPECIAL + 1)
+    for j in range(N_SPECIAL):
+        yield (j, N_SPECIAL, N_SPECIAL + 1)
 
 
 def special_mspecs(combo):
